@@ -574,7 +574,7 @@ def decided_edges(b, dj, key, value):
     return out
 
 
-def field_slice(body, operand, max_steps=600, receiver_only=()):
+def field_slice(body, operand, max_steps=600, receiver_only=(), stop_at=()):
     """Field-sensitive backward slice: like backward_slice, but a read of field i of a tuple / struct local that was built by
     an aggregate follows only operand i (so `let (a, b) = (x.start(), x.end())` keeps a and b apart), and a tuple rebuilt in
     the arms of a match (`(Some(a), Some(b)) => (a, b)`) is followed component by component. Downcasts and dereferences do
@@ -622,6 +622,8 @@ def field_slice(body, operand, max_steps=600, receiver_only=()):
                 nm = (d[2].decl or d[2].name or "").split("::")[-1]
                 if nm in receiver_only:
                     args = args[:1]
+                if nm in stop_at:
+                    args = []            # the value is this call's result; where its inputs come from is not asked
                 for a in args:
                     if a[0] in ("c", "m"):
                         push_place(a[1])
